@@ -148,6 +148,8 @@ class C18(object):
             if kind in ("save", "resave") and faults and rnd.random() < 0.35:
                 op["fault"] = {"at": rnd.choice([1, 1, 2, 3, 5, 8, 13]), "errno": rnd.choice([errno.ENOSPC, errno.EIO]),
                                "torn": rnd.random() < 0.5}
+            if fam in ("cf_text", "cf_hdf") and kind == "load":
+                op["reuse_reader"] = rnd.random() < 0.4   # read into a columnfile object that already read another file
             if fam == "cf_hdf":
                 op["group"] = rnd.choice(["peaks", "peaks", "g2"])
                 op["variant"] = rnd.choice(["to_hdf", "to_hdf", "obj_to_hdf"])
@@ -382,12 +384,23 @@ class C18(object):
                     counts["fault_fired"] += plan["fired"]
                     counts["fault_configured"] += 1
 
+        reader = {}
+
         def do_load(op, slot):
             p = path(slot)
             with contextlib.redirect_stdout(io.StringIO()):
+                if fam in ("cf_text", "cf_hdf") and op.get("reuse_reader") and "obj" in reader and \
+                        (fam == "cf_text" or len(hdf_groups_in(slot)) == 1):
+                    counts["loads_into_a_used_reader_object"] += 1
+                    reader["obj"].readfile(p)
+                    return reader["obj"]
                 if fam == "cf_text":
-                    return M["columnfile"].columnfile(p)
+                    reader["obj"] = M["columnfile"].columnfile(p)
+                    return reader["obj"]
                 if fam == "cf_hdf":
+                    if len(hdf_groups_in(slot)) == 1 and op.get("reuse_reader"):
+                        reader["obj"] = M["columnfile"].columnfile(p)  # the magic-number route of readfile
+                        return reader["obj"]
                     # "the sole group" is only defined when the file holds exactly one
                     byname = op.get("byname", True) or len(hdf_groups_in(slot)) != 1
                     return M["columnfile"].colfile_from_hdf(p, name=op.get("group") if byname else None)
